@@ -24,7 +24,7 @@ EXTENDS Integers, Sequences, FiniteSets
 CONSTANTS Families,   \* records [name, dim, constraints (set of positions), periodic (set of Cartesian axes)]
           CandClasses, \* candidate classes: "SphericalDroplet", "DiffuseDroplet", "PerturbedDroplet2D", ...
           ModeCounts,
-          WidthOpts,   \* "none" | "given"
+          WidthOpts,   \* "none" | "given" | "zero" (a sharp candidate: width exactly 0 is a width, not "unset")
           LevelOpts    \* "fixed" | "auto" | "adjust" | "autoadjust"
 
 VARIABLES req, pc, cls, width, free, lower, upper, nextra, cost, wrapped
